@@ -71,6 +71,20 @@ def r1(ctx):
             ctx.violation(rule, P + '|cleared', b.where(s['line']), 'modified_before is reset to None')
         elif is_some:
             somes.append((bi, s, sl))
+    if not somes:
+        # the same default written as `modified_before.get_or_insert(header.timestamp)`: assigned only when None, by the definition of the method
+        from ..analysis import option_default_events
+        ev = [e for e in option_default_events(bn, b, 'modified_before', 'DedupeConfig') if e[2] == 'get_or_insert']
+        if ev:
+            gbb, vsl, _ = ev[0]
+            ctx.stats[rule + ':modified_before = Some(..) assignments'] = len(ev)
+            ctx.check('timestamp' in vsl.field_names(), rule, P + '|default-source', b.where(b.blocks[gbb]['term']['line']), 'default value is header.timestamp', 'the default does not come from header.timestamp (%s)' % vsl.describe(b))
+            ctx.check(b.dominates(gbb, D.bb), rule, P + '|some-on-every-path', b.where(b.blocks[gbb]['term']['line']),
+                      'every path on which modified_before is None assigns Some(header.timestamp) before dedupe() (get_or_insert dominates the call)', 'a path reaches dedupe() with modified_before still None')
+            csl = backslice(b, [D.args[2]])
+            gsl_ = backslice(b, [b.call_at(gbb).args[0]])
+            ctx.check(bool(csl.locals & gsl_.locals), rule, P + '|same-config', D.where(), 'dedupe() receives the defaulted configuration', 'dedupe() receives a different configuration than the one that was defaulted')
+            return
     if not ctx.floor(rule, 'modified_before = Some(..) assignments', len(somes), 1, b.where()):
         return
     bi, s, sl = somes[0]
@@ -428,11 +442,12 @@ def r4(ctx):
     if rd is None:
         ctx.missing(rule, 'fn run_dedupe (binary)')
         return
-    ws = field_writes(rd, 'no_check_size', 'DedupeConfig')
-    for bi, s in ws:
-        sl = backslice(rd, rvalue_operands(s['rv']))
-        good = 'transform' in sl.field_names() and sl.has_call(r'Option(::)?<.*>::is_some$') and not any(const_bool({'k': k}) is True for k in sl.consts)
-        ctx.check(good, rule, 'bin::run_dedupe|no_check_size-source', rd.where(s['line']), 'no_check_size |= transform.is_some()', 'no_check_size is set from %s' % sl.describe(rd))
+    from ..analysis import bool_set_events
+    for bi, s, cond in bool_set_events(rd, 'no_check_size', 'DedupeConfig'):
+        # `no_check_size |= transform.is_some()` or `if transform.is_some() { no_check_size = true }`
+        good = cond is not None and 'transform' in cond.field_names() and cond.has_call(r'Option(::)?<.*>::is_some$') and not any(const_bool({'k': k}) is True for k in cond.consts)
+        ctx.check(good, rule, 'bin::run_dedupe|no_check_size-source', rd.where(s['line']), 'no_check_size is only switched on, by transform.is_some()',
+                  'no_check_size is set from %s' % (cond.describe(rd) if cond is not None else 'something else than a condition that switches it on'))
     for u, tag in ((lib, ''), (bn, 'bin::')):
         for bb_ in u.bodies.values():
             if bb_ is rd or '::test' in bb_.path or bb_.derived or 'clap::' in bb_.path:
